@@ -1,4 +1,4 @@
-(* GENERATED from /repo by harness/c16.py on every run; do not edit *)
+(* GENERATED from /tmp/try-C16-13343 by harness/c16.py on every run; do not edit *)
 From Coq Require Import ZArith List.
 Import ListNotations.
 Open Scope Z_scope.
@@ -8,7 +8,8 @@ Definition key_to_file_path_identity : bool := true.
 Definition default_max_src : Z := 1048576.
 Definition ufm_oversize_uncached : bool := true.
 Definition ufm_uncached_purges : bool := true.
-Definition write_file_opens_target_only : bool := true.
+Definition task_failure_forgets : bool := true.
+Definition write_file_opens_target_only : bool := false.  (* shape not recognised: _write_file opens tmp_fname, not the file of the key *)
 Definition table_get_returns_copy : bool := true.
 Definition df_concat_old_first : bool := true.
 Definition df_sort_stable : bool := true.
